@@ -100,7 +100,7 @@ def main():
                 "quick_cmd": f"./check.sh {pid} quick",
                 "thorough_cmd": f"./check.sh {pid} thorough",
                 "evidence_file": f"/verif/evidence/{pid}.json",
-                "replay_cmd_template": "cat {path}",
+                "replay_cmd_template": "bin/gocv replay {path}",
                 "engine": "gocv",
                 "level_claimed": {"category": "proof", "text": c["text"], "design_ref": "DESIGN.md §" + c["ref"]},
                 "level_note": c["note"],
